@@ -45,9 +45,20 @@ func (mh *MessageHandler) FromMsgReader(_ peer.ID, r msgio.Reader) (message.Grap
 
 	ipldGSM, err := ipldbind.BindnodeRegistry.TypeFromBytes(msg, (*ipldbind.GraphSyncMessageRoot)(nil), dagcbor.Decode)
 	if err != nil {
-		return message.GraphSyncMessage{}, err
+		return message.GraphSyncMessage{}, malformedPayload(err)
 	}
-	return mh.fromIPLD(ipldGSM.(*ipldbind.GraphSyncMessageRoot))
+	gsm, err := mh.fromIPLD(ipldGSM.(*ipldbind.GraphSyncMessageRoot))
+	return gsm, malformedPayload(err)
+}
+
+// malformedPayload keeps io.EOF for the orderly end of a stream, which is how callers recognise it: once
+// a frame has been read, a payload that ends early (an empty frame, a payload cut at an item boundary, an
+// empty CID prefix) is a malformed message, whatever the decoder calls it.
+func malformedPayload(err error) error {
+	if err == io.EOF {
+		return io.ErrUnexpectedEOF
+	}
+	return err
 }
 
 // ToProto converts a GraphSyncMessage to its ipldbind.GraphSyncMessageRoot equivalent
